@@ -10,6 +10,8 @@ INVARIANT NamesUnique
 INVARIANT FirstUnderlierStays
 INVARIANT ListingConsistent
 INVARIANT ClauseNamesStayUsable
+INVARIANT AttributeReadsRegistry
+PROPERTY SetAttrIsRegister
 PROPERTY RejectedIsNoop
 PROPERTY KeepsPlace
 PROPERTY Separate
